@@ -4,7 +4,7 @@ Percentages of page boxes and margin boxes: mirror of weasyprint/layout/percent.
   for a definite containing block (a `(width, height)` tuple such as `page.style['size']` and the margin /
   corner areas of `make_margin_boxes`, or a box with numeric `width` / `height`), and `adjust_box_sizing`.
 The branch `cb_height == 'auto'` (containing block whose height depends on its content) never runs for a
-page box or a margin box and is outside this model.
+page box or a margin box; it is modelled too (`resolvePercentagesAutoHeight`) so that the whole function is covered.
 `isPage` is `isinstance(box, boxes.PageBox)`: the only thing that decides whether the vertical margins and
 paddings refer to the containing block's height (`maybe_height = cb_height`, css-page-3) or, like for every
 other box, to its width (CSS 2.1 §8.3 / §8.4).
@@ -123,6 +123,61 @@ def resolvePercentages (isPage : Bool) (s : CStyle) (cbW cbH : Rat) : Used :=
     pl := pl, pr := pr, pt := pt, pb := pb
     width := w, height := h, minW := minW, minH := minH, maxW := maxW, maxH := maxH
     bt := s.bt, br := s.br, bb := s.bb, bl := s.bl }
+
+/-! ## `cb_height == 'auto'` -/
+
+/-- A used `max-height` when the containing block's height is indefinite: `percentage(value, inf)` is
+`inf * v / 100`, which is `inf` for `v > 0` and the float `nan` for `0%`. -/
+inductive MaxUsed where
+  | inf
+  | num (v : Rat)
+  | nan
+  deriving Repr, BEq, DecidableEq, Inhabited
+
+/-- `resolve_one_percentage(box, 'max_height', inf)`. -/
+def MaxDim.resolveInf : MaxDim → MaxUsed
+  | .inf => .inf
+  | .px v => .num v
+  | .pct v => if v = 0 then .nan else .inf     -- (negative percentages are rejected by the validator)
+
+/-- `max(0, max_height - delta)` of `adjust_box_sizing` (Python `max(0, nan)` is `0`: the comparison is false). -/
+def MaxUsed.shrink (m : MaxUsed) (delta : Rat) : MaxUsed :=
+  match m with
+  | .inf => .inf
+  | .num v => .num (PagePercent.shrink v delta)
+  | .nan => .num 0
+
+/-- The used values with an indefinite containing-block height. -/
+structure UsedAuto where
+  base : Used            -- `maxH` of `base` is not meaningful here (kept `none`)
+  maxH : MaxUsed
+  deriving Repr, BEq, DecidableEq, Inhabited
+
+/-- `resolve_percentages(box, (cb_width, 'auto'))`: `height` is `'auto'` unless it is a length, `min_height`
+percentages resolve against 0, `max_height` percentages against `inf`. -/
+def resolvePercentagesAutoHeight (isPage : Bool) (s : CStyle) (cbW : Rat) : UsedAuto :=
+  -- `maybe_height` is `cb_height = 'auto'` for a page box: `percentage('auto' * v / 100)` would be a `TypeError`;
+  -- a page box never has an indefinite containing block, the model reads the width there like for other boxes
+  let mh := cbW
+  let _ := isPage
+  let pl := s.pl.resolve cbW
+  let pr := s.pr.resolve cbW
+  let pt := s.pt.resolve mh
+  let pb := s.pb.resolve mh
+  let (w, minW, maxW) := adjustAxis (sizingDelta s.sizing pl pr s.bl s.br)
+    (s.width.resolve cbW) (resolveMinDim s.minW cbW) (s.maxW.resolve cbW)
+  let height : Len := match s.height with | .px v => some v | _ => none
+  let deltaH := sizingDelta s.sizing pt pb s.bt s.bb
+  let minH0 := resolveMinDim s.minH 0
+  let maxH0 := s.maxH.resolveInf
+  let (h, minH, maxH) : Len × Rat × MaxUsed :=
+    if deltaH > 0 then (height.map (fun v => shrink v deltaH), shrink minH0 deltaH, maxH0.shrink deltaH)
+    else (height, minH0, maxH0)
+  { base := { ml := s.ml.resolve cbW, mr := s.mr.resolve cbW, mt := s.mt.resolve mh, mb := s.mb.resolve mh
+              pl := pl, pr := pr, pt := pt, pb := pb
+              width := w, height := h, minW := minW, minH := minH, maxW := maxW, maxH := none
+              bt := s.bt, br := s.br, bb := s.bb, bl := s.bl }
+    maxH := maxH }
 
 /-! ## The page algorithms on resolved values -/
 
